@@ -761,20 +761,26 @@ int main(int argc, char **argv)
     cfg.rule =
         "case = one (algorithm, length, family) bundle; transitions = primitive comparisons, each one MatrixSSL call sequence whose output bytes "
         "(digest/MAC/OKM/key/ciphertext/tag/plaintext, or accept/reject for AEAD open) are compared with OpenSSL on the same inputs. "
-        "Enumeration per algorithm [md5 sha1 sha256 sha384 sha512 md5sha1 psHash*(sha256/384/512) psSha512Single; hmac-md5/sha1/sha256/sha384 through "
-        "psHmac<X>, psHmac, Init/Update/Final, psHmacInit/Update/Final, psHmacSingle; hkdf extract/expand/expandlabel x 4 hashes; pbkdf2-hmac-sha1; "
-        "aes128/192/256 block enc+dec; aes-cbc x3 and 3des-cbc; aes-gcm x3; chacha20-poly1305 (best and reference implementation)]: every length "
-        "0..4*block+1 (hash/hmac: block=64 or 128; cbc: 0..17 blocks; gcm: 0..260; chacha: 0..257 plus 319..1025 boundary triples); partitions into "
-        "update calls: all 2^(n-1) compositions for n<=10, whole + every 1-cut for all n, every 2-cut (hash: n<=2*block+1 and n within 9 below/1 above a "
-        "block multiple in quick, all n in thorough; hmac: key=block, n<=2*block+1 quick/all thorough; cbc all; gcm n<=65 quick/<=260 thorough), zero-length "
-        "calls at start/middle/end; thorough adds lengths 2^k-1,2^k,2^k+1 up to 65537 with cuts at {1,blk+-1,blk,2blk+-1,2blk,n/2,n-blk+-1,n-blk,n-1}; "
-        "input x output offsets 0..15 x 0..15 and in place; hmac keys {0,1,block-1,block,block+1,2*block+3}; hkdf okm {0,1,H-1,H,H+1,2H,2H+1,255H-1,255H, "
-        "255H+1 must be refused} x prk {H-1 refused,H,H+1,block,block+1,2*block+3} x info 0..81; gcm/chacha AAD 0..64 and 127..129,255..257, gcm tags 1..16 "
-        "on fresh and re-used contexts; AEAD open for pt {0,1,16,17,33} x aad {0,1,13,16,17,64}: untouched tuple must open, every single flipped bit of "
-        "ct/tag/nonce/aad and every record shortened by 1..16+ bytes must be rejected, short tags only when asked for. "
-        "non-trivial = the bundle compared at least one MatrixSSL output with the reference (refusals of out-of-range inputs are counted separately). "
-        "Excluded (documented preconditions, not called): ps*HmacInit with key > block (source asserts keyLen<=block; one-shot normalises), CBC/3DES "
-        "lengths that are not block multiples, psPkcs5Pbkdf2 kLen=0 (psAssert), GCM tag length 0 or >16, nonces other than 12 bytes.";
+        "Algorithms: md5 sha1 sha256 sha384 sha512 md5sha1 psHash*(sha256/384/512) psSha512Single; hmac-md5/sha1/sha256/sha384 through psHmac<X>, psHmac, "
+        "Init/Update/Final, psHmacInit/Update/Final, psHmacSingle; hkdf extract/expand/expandlabel x 4 hashes; pbkdf2-hmac-sha1; aes128/192/256 block enc+dec "
+        "(every single-bit key and block, all-0/all-1, seeded; invalid key lengths 0..64 must be refused); aes-cbc x3 and 3des-cbc; aes-gcm x3; chacha20-poly1305 "
+        "(best and reference implementation). Lengths: hash/hmac 0..4*block+1 (block 64 or 128); cbc 0..17 blocks (33 thorough); gcm 0..260; chacha 0..257 plus the "
+        "triples around 320,384,448,512,576,640,768,1024 (0..1025 thorough); thorough adds 2^k-1,2^k,2^k+1 for k=10..16. Call patterns per length n: all 2^(n-1) "
+        "compositions for n<=10; whole + every 1-cut for every n; zero-length calls at start/middle/end; every 2-cut for: hash block 64: n<=129 or n mod 64 in "
+        "{62,63,0,1,54..57} (thorough: every n<=257); hash block 128: n<=129 or (n<=257 and n mod 128 in {126,127,0,1,110..113}) (thorough: n<=257 or that window "
+        "up to 513); hmac (Init/Update/Final, key=block): n<=129 (thorough n<=2*block+1); cbc: every block count; gcm: n<=65 with AAD {0,13,17} (thorough: all of "
+        "{0,1,13,16,17} for n<=65 and {0,13,17} for n<=130); the 2^k grid uses cuts at {1,blk-1,blk,blk+1,2blk-1,2blk,2blk+1,n/2,n-blk-1,n-blk,n-blk+1,n-1}. "
+        "hmac keys {0,1,block-1,block,block+1,2*block+3} (quick: 1-cut partitions of messages longer than block+1 only for keys 0, block, 2*block+3); "
+        "input x output offsets 0..15 x 0..15 on exact-size heap buffers, and in place for ciphers/AEADs; hkdf okm {0,1,H-1,H,H+1,2H,2H+1,255H-1,255H; 255H+1 must be "
+        "refused} x prk {H-1 refused,H,H+1,block,block+1,2*block+3} x info 0..81; pbkdf2 password {0,1,8,63,64,65,131} x salt {0,1,8,16,64,65} x rounds {1,2,5,100} x "
+        "key {1,19,20,21,40,41,64}; gcm/chacha AAD 0..64 and 127..129,255..257; gcm tag lengths 1..16 on a fresh context and on a context that already processed "
+        "a message; AEAD open for pt {0,1,16,17,33} x aad {0,1,13,16,17,64} (chacha thorough also 63,64,65,257): untouched tuple must open with the exact plaintext, "
+        "every single flipped bit of ct/tag/nonce/aad and every record shortened by 1..16(+4) bytes must be rejected, short tags only when asked for (gcm 1..15). "
+        "Undefined behaviour reported by UBSan inside a primitive is a violation of that primitive (key ubsan|file:line|kind); an ASan abort is a crash violation. "
+        "non-trivial = the bundle compared at least one MatrixSSL output with the reference (correct refusals of out-of-range inputs are counted separately). "
+        "Excluded (documented preconditions, not called): ps*HmacInit/psHmacInit/psHmacSingle with key > block (source asserts keyLen<=block; the one-shot functions "
+        "normalise the key and their output key is what is fed to Init), CBC/3DES lengths that are not block multiples, psPkcs5Pbkdf2 kLen=0 (psAssert), GCM tag "
+        "length 0 or >16, nonces other than 12 bytes, misaligned context structures.";
     cfg.assumptions[0] = "OpenSSL 3.0 libcrypto (default provider) is a correct implementation of the standards for these inputs";
     cfg.assumptions[1] = "input bytes are fixed pseudo-random patterns derived from the seed; the set of cases does not depend on the seed";
     cfg.assumptions[2] = "AES-NI code paths (aes_aesni.c) are not compiled in this build configuration and are not covered";
